@@ -447,12 +447,33 @@ def run_case(case, model=None):
             raise SpyError(f"start spy: {type(e).__name__}: {e}")
         return out
 
+    algo_obj = None
+    if case.get("reuse"):
+        # ONE algorithm object (algorithm_factory(settings)) first run on another cohort, then - observed - on the case's cohort:
+        # an algorithm object may be run several times (cross-validation loops); every run answers for its own cohort only
+        from leaspy.algo import AlgorithmSettings
+        from leaspy.algo.base import algorithm_factory
+        from leaspy.models import BaseModel
+
+        try:
+            with quiet():
+                algo_obj = algorithm_factory(AlgorithmSettings(case["algo"], seed=case["seed"], progress_bar=False, **kwargs))
+                prior = to_form(case_frame(spec, list(case["reuse"]), "alpha"), spec, "data", keeps_empty_visits(list(case["reuse"])))
+                algo_obj.run(model, BaseModel._get_dataset(prior))
+        except Exception as e:
+            problems.append((f"{site}|raises {type(e).__name__}|first run of the algorithm object", f"{type(e).__name__}: {str(e)[:300]}"))
+            return {"problems": problems, "outcome": f"raises:{type(e).__name__}", "nontrivial": False, "info": info}
+        feat = feat + ", second run of the same algorithm object" if feat else "second run of the same algorithm object"
     model.put_individual_parameters = put_individual_parameters
     with spies() as rec, quiet():
         rec["starts"] = rec_starts
         try:
             with time_limit(120):
-                if case.get("via", "kwargs") == "object":
+                if algo_obj is not None:
+                    from leaspy.models import BaseModel
+
+                    ip = algo_obj.run(model, BaseModel._get_dataset(data))
+                elif case.get("via", "kwargs") == "object":
                     from leaspy.algo import AlgorithmSettings
 
                     settings = AlgorithmSettings(case["algo"], seed=case["seed"], progress_bar=False, **kwargs)
@@ -801,6 +822,8 @@ def shards(tier, seed):
             out.append({"model": name, "source": source, "part": "mixture", "tier": tier, "seed": seed})
             continue
         out.append({"model": name, "source": source, "part": "identifiers", "tier": tier, "seed": seed})
+        if source == "loaded":
+            out.append({"model": name, "source": source, "part": "reuse", "tier": tier, "seed": seed})
         for cohort in COHORTS[tier]:
             if not ingestible(spec, cohort):
                 continue
@@ -833,6 +856,15 @@ def shard_cases(shard):
             for algo in ("mean_posterior", "mode_posterior"):
                 yield dict(base, cohort=cohort, labels="alpha", form="data", via="kwargs", algo=algo,
                            settings={"n_iter": 5, "burn": "frac0.5", "annealing": "off"}, seed=0)
+    elif shard["part"] == "reuse":
+        for cohort, prior in ((["c", "a", "b"], ["e", "d", "a"]), (["e", "d"], ["a", "b", "c"]), (["a"], ["b"])):
+            if not (ingestible(spec, cohort) and ingestible(spec, prior)):
+                continue
+            for a in ({"algo": "mean_posterior", "settings": {"n_iter": 6, "burn": "frac0.5", "annealing": "off"}},
+                      {"algo": "mode_posterior", "settings": {"n_iter": 5, "burn": "count1", "annealing": "2_plateaus"}},
+                      {"algo": "scipy_minimize", "settings": {"optimiser": "powell_1_iteration"}}):
+                for sd in seeds_of(seed)[:2]:
+                    yield dict(base, cohort=cohort, labels="alpha", form="data", via="kwargs", reuse=prior, seed=sd, **a)
     elif shard["part"] == "mcmc_small":
         for algo, burn, a, sd in itertools.product(("mean_posterior", "mode_posterior"), ("frac0.5", "count1"), ("off", "2_plateaus"), seeds_of(seed)):
             yield dict(base, cohort=shard["cohort"], labels="alpha", form="data", via="kwargs", algo=algo,
